@@ -8,6 +8,7 @@ var th = "thorough"
 func depths(quick []int, thorough []int) map[string][]int {
 	return map[string][]int{q: quick, th: thorough}
 }
+func inst(quick, thorough string) map[string]string { return map[string]string{q: quick, th: thorough} }
 func budget(quick, thorough time.Duration) map[string]time.Duration {
 	return map[string]time.Duration{q: quick, th: thorough}
 }
@@ -24,7 +25,23 @@ var checks = map[string]*check{
 			"T oracle (both succeed inside the window) asserted only in executions without a TIME deviation",
 		},
 		Parts: []part{
-			{Name: "routing", Kind: "explore", Scen: "mux_route", Depths: depths([]int{2}, []int{2, 3}), Budget: budget(3*time.Minute, 20*time.Minute)},
+			{Name: "routing-1id", Kind: "explore", Scen: "mux_route", Inst: inst("single", "single"), Depths: depths([]int{3}, []int{3, 4, 5}), Budget: budget(2*time.Minute, 10*time.Minute)},
+			{Name: "routing-2id", Kind: "explore", Scen: "mux_route", Inst: inst("pairs", "pairs-all"), Depths: depths([]int{2}, []int{2, 3}), Budget: budget(3*time.Minute, 20*time.Minute)},
+		},
+	},
+	"C07": {
+		Title: "GRPCBroker connects Dial(id) only to the server accepted on that id",
+		Level: "model_checking",
+		Rule: "every schedule / timer order / select choice with at most d deviations of the real GRPCBroker pair over real gRPC (virtual sockets), " +
+			"for every 1- and 2-ID pattern of (dial side, issue order, gap); non-trivial = at least one decision point with >= 2 alternatives",
+		Assumptions: []string{
+			"interleavings inside gRPC are not enumerated (it runs to quiescence between go-plugin's synchronisation points)",
+			"virtual connection models a reliable ordered byte stream; connect succeeds iff the listener exists",
+			"T oracle (first call succeeds inside the window) asserted only in executions without a TIME deviation",
+		},
+		Parts: []part{
+			{Name: "routing-1id", Kind: "explore", Scen: "grpc_route", Inst: inst("single", "single"), Depths: depths([]int{2}, []int{2, 3}), Budget: budget(2*time.Minute, 10*time.Minute)},
+			{Name: "routing-2id", Kind: "explore", Scen: "grpc_route", Inst: inst("pairs", "pairs-all"), Depths: depths([]int{1}, []int{1, 2}), Budget: budget(3*time.Minute, 25*time.Minute)},
 		},
 	},
 }
